@@ -151,9 +151,22 @@ func prefixPostfix(w *eng.W, leg string, ops []string, f func(leg string, src []
 }
 
 // listForms: delimited lists with every separator / spread placement.
+// byteSequences: texts that are not valid UTF-8 - stray continuation and lead bytes, sequences cut short, an
+// encoded surrogate, an overlong form - at every place of a short text and in particular at its very end.
+func byteSequences(w *eng.W, leg string, n int, f func(leg string, src []byte)) {
+	atoms := []string{"a", "1", " ", "+", "(", "'", ".", "\n", "\xff", "\x80", "\xe2", "\xe2\x80", "\xf0\x9f\x98", "\xc3", "\xed\xa0\x80", "\xc0\x80", "中", "\ufffd", "\xe9", "\""}
+	for l := 1; l <= n; l++ {
+		seqsSharded(w, len(atoms), l, func(idx []int) {
+			f(leg, joinIdx(atoms, idx, ""))
+		})
+	}
+}
+
 func listForms(w *eng.W, leg string, f func(leg string, src []byte)) {
 	// (lists inside elements: a parenthesised sequence is ONE element, a list or call inside an element keeps its own commas)
-	items := []string{"a", "-a", "!!a", "...", "", "$x = 1", "a ? b : c", "(a, b)", "((a, b), c)", "[a, b]", "g(a, b)", "(g(a, b), c)", "(a, b)..."}
+	items := []string{"a", "-a", "!!a", "...", "", "$x = 1", "a ? b : c", "(a, b)", "((a, b), c)", "[a, b]", "g(a, b)", "(g(a, b), c)", "(a, b)...",
+		// an assignment in the else branch, compound-assignment look-alikes, a conditional as the value of an assignment
+		"a ? b : $x = 1", "a ? b : c ? d : $x = e", "$x += 1", "$x -= b", "$x = a ? b : c"}
 	seps := []string{",", " ", ",,", ", "}
 	wrappers := [][2]string{{"[", "]"}, {"f(", ")"}, {"a.b(", ")"}, {"[", ""}, {"f(", ""}}
 	ni, ns := len(items), len(seps)
